@@ -113,7 +113,8 @@ def execute(sc, ctx):
 
     def check_all(where):
         cols = list(env.cells.columns)
-        ctx.check(cols == ["pos"] + list(live), "columns", f"{where}: columns {cols} expected {['pos'] + list(live)}")
+        ctx.check(sorted(map(str, cols)) == sorted(["pos"] + list(live)), "columns",
+                  f"{where}: columns {cols} expected (in any order) {['pos'] + list(live)}")
         ctx.check([tuple(p) for p in env.cells["pos"]] == cells, "cells-changed", f"{where}: the position column changed")
         for name, rec in live.items():
             col = env.cells[name]
